@@ -407,6 +407,15 @@ class ConvGeneralDilatedPlugin(PrimitiveLeafPlugin):
                 f"Unsupported conv layouts: lhs={lhs_spec}, rhs={rhs_spec}, out={out_spec}"
             )
 
+        batch_group_count = int(params.get("batch_group_count", 1) or 1)
+        if batch_group_count != 1:
+            # ONNX Conv has no batch-group semantics; ignoring the parameter would
+            # silently export a different convolution.
+            raise NotImplementedError(
+                "conv_general_dilated with batch_group_count != 1 is not supported "
+                f"(got {batch_group_count})"
+            )
+
         lhs_val = ctx.get_value_for_var(lhs_var, name_hint=ctx.fresh_name("conv_lhs"))
         rhs_val = ctx.get_value_for_var(rhs_var, name_hint=ctx.fresh_name("conv_rhs"))
         out_spec = ctx.get_value_for_var(out_var, name_hint=ctx.fresh_name("conv_out"))
